@@ -33,6 +33,9 @@
 (*                           the code moves each staged file over its       *)
 (*                           predecessor with os.replace, which for the     *)
 (*                           one output file of the model is one step)      *)
+(*   "staging_name_shared"   every process stages in the SAME directory    *)
+(*                           (names drawn from a generator the processes    *)
+(*                           seeded alike; the code as it was, see _store)  *)
 (*   "dir_delete_in_place"   a directory is deleted file by file in place  *)
 (*                           (off = renamed away first)                     *)
 (*   "asdict_keyerror_escapes" __asdict__ lets the KeyError of an entry    *)
@@ -121,15 +124,24 @@ Finish(p, r) == /\ res' = [res EXCEPT ![p] = r] /\ Goto(p, "done")
 KeyErr == [NoRes EXCEPT !.ok = FALSE, !.exc = "KeyError"]
 
 (* ---- writer: _store ---- *)
-Mkdir(p) == /\ pc[p] = "mkdir" /\ tmp' = [tmp EXCEPT ![p] = [ex |-> TRUE, out |-> 0]] /\ Goto(p, "creat")
-            /\ UNCHANGED <<fin, loc, res>> /\ Step(p, "mkdir")
-Creat(p) == /\ pc[p] = "creat" /\ tmp' = [tmp EXCEPT ![p].out = -1] /\ Goto(p, "write")
-            /\ UNCHANGED <<fin, loc, res>> /\ Step(p, "creat")
-Write(p) == /\ pc[p] = "write" /\ tmp' = [tmp EXCEPT ![p].out = CurV(p)] /\ Goto(p, "close")
-            /\ UNCHANGED <<fin, loc, res>> /\ Step(p, "write")
+\* The staging directory has a made-up name.  Deviation "staging_name_shared" (the code as it was: the name came from the
+\* global random generator, which two processes may have seeded alike): every process uses staging directory 1.  mkdir of
+\* a directory that exists, and open() in a directory that has been renamed away, raise OSError - which _store swallows,
+\* going on to move "its" staging directory to the key.
+T(p) == IF "staging_name_shared" \in Deviations THEN 1 ELSE p
+AfterClose == IF "dir_remove_then_rename" \notin Deviations THEN "rename"
+              ELSE IF "dir_delete_in_place" \in Deviations THEN "scan" ELSE "away"
+Mkdir(p) == /\ pc[p] = "mkdir" /\ UNCHANGED <<fin, loc, res>> /\ Step(p, "mkdir")
+            /\ IF tmp[T(p)].ex THEN UNCHANGED tmp /\ Goto(p, AfterClose)
+               ELSE tmp' = [tmp EXCEPT ![T(p)] = [ex |-> TRUE, out |-> 0]] /\ Goto(p, "creat")
+Creat(p) == /\ pc[p] = "creat" /\ UNCHANGED <<fin, loc, res>> /\ Step(p, "creat")
+            /\ IF tmp[T(p)].ex THEN tmp' = [tmp EXCEPT ![T(p)].out = -1] /\ Goto(p, "write")
+               ELSE UNCHANGED tmp /\ Goto(p, AfterClose)
+Write(p) == /\ pc[p] = "write" /\ UNCHANGED <<fin, loc, res>> /\ Step(p, "write")
+            /\ IF tmp[T(p)].ex THEN tmp' = [tmp EXCEPT ![T(p)].out = CurV(p)] ELSE UNCHANGED tmp
+            /\ Goto(p, "close")
 Close(p) == /\ pc[p] = "close" /\ UNCHANGED <<fin, tmp, loc, res>> /\ Step(p, "close")
-            /\ Goto(p, IF "dir_remove_then_rename" \notin Deviations THEN "rename"
-                       ELSE IF "dir_delete_in_place" \in Deviations THEN "scan" ELSE "away")
+            /\ Goto(p, AfterClose)
 \* _rmdir(final): scandir; unlink each listed file; rmdir - every error ignored
 Scan(p) == /\ pc[p] = "scan" /\ UNCHANGED <<fin, tmp, loc, res>> /\ Step(p, "scandir")
            /\ Goto(p, IF ~fin[CurK(p)].ex THEN "rename" ELSE IF fin[CurK(p)].out # 0 THEN "unlink" ELSE "rmdir")
@@ -143,7 +155,7 @@ Rmdir(p) == /\ pc[p] = "rmdir" /\ Goto(p, "rename") /\ UNCHANGED <<tmp, loc, res
 Rename(p) == /\ pc[p] = "rename" /\ Step(p, "rename") /\ UNCHANGED <<loc, res>>
              /\ LET k == CurK(p)
                     can == ~fin[k].ex \/ fin[k].out = 0 \/ "dir_remove_then_rename" \notin Deviations
-                IN IF can THEN fin' = [fin EXCEPT ![k] = tmp[p]] /\ tmp' = [tmp EXCEPT ![p] = NoDir]
+                IN IF can /\ tmp[T(p)].ex THEN fin' = [fin EXCEPT ![k] = tmp[T(p)]] /\ tmp' = [tmp EXCEPT ![T(p)] = NoDir]
                    ELSE UNCHANGED <<fin, tmp>>        \* ENOTEMPTY: the OSError is swallowed, the staging directory stays
              /\ Goto(p, "prune")
 Prune(p) == /\ pc[p] = "prune" /\ Step(p, "rmdir-root") /\ UNCHANGED <<fin, tmp, res>>
